@@ -37,3 +37,13 @@ Theorem C14_reduced_state_hermitian :
   adj conj (rho_ens conj psi p) = rho_ens conj psi p.
 Proof. exact: rho_ens_hermitian. Qed.
 Print Assumptions C14_reduced_state_hermitian.
+
+(* positive semi-definite, in the form valid over any field: <x|rho|x> = sum_i p_i conj(<psi_i|x>) <psi_i|x>, a sum of
+   p_i |<psi_i|x>|^2 - non-negative over the complex numbers whenever the p_i are (C14_probs_accept) *)
+Theorem C14_reduced_state_quadratic_form :
+  forall (F : fieldType) (conj : {rmorphism F -> F}) (d k : nat) (psi : 'I_k -> 'cV[F]_d) (p : 'I_k -> F) (x : 'cV[F]_d),
+  (forall y, conj (conj y) = y) ->
+  (adj conj x *m rho_ens conj psi p *m x) 0 0
+  = \sum_i p i * (conj ((adj conj (psi i) *m x) 0 0) * (adj conj (psi i) *m x) 0 0).
+Proof. exact: rho_ens_quadratic_form. Qed.
+Print Assumptions C14_reduced_state_quadratic_form.
